@@ -113,5 +113,23 @@ func c01GenCorpus(out *bufio.Writer) {
 	bolt(1, cmp("ge", fn("count", "members"), num(2)))
 	// known finding: a set followed by a linked non-set chain
 	bolt(0, cmp("eq", fn("anyOf", "groups.boss.label"), str("L2")))
+	// 38978b1: a null link among the elements of a sub-query's dotted set symbol is no row (and
+	// must not end the scan): member a1 has no owner, a2 is owned by b1
+	c1, c2, d1 := ent("a1"), ent("a2"), ent("b1")
+	c2.fields["owner"] = c01Str("b1")
+	d1.sets["members"] = strs("a1", "a2")
+	ds = &c01Dataset{stores: c01Universe, rows: [][]*c01Entity{{c1, c2}, {d1}}}
+	bolt(1, cmp("eq", sub("count", "members.owner", &c01Node{kind: "bc", b: true}, nil, nil), num(1)))
+	bolt(1, sub("isEmpty", "members.owner", &c01Node{kind: "bc", b: true}, nil, nil))
+	bolt(1, cmp("eq", fn("count", "members.owner"), num(2)))
+	// known finding: a sub-query over a set followed by two links
+	e1, g1, g2, g3 := ent("a1"), ent("b1"), ent("b2"), ent("b3")
+	e1.sets["groups"] = strs("b1")
+	g1.fields["boss"] = c01Str("b2")
+	g2.fields["boss"] = c01Str("b3")
+	g3.fields["label"] = c01Str("x")
+	ds = &c01Dataset{stores: c01Universe, rows: [][]*c01Entity{{e1}, {g1, g2, g3}}}
+	bolt(0, cmp("eq", sub("count", "groups.boss.boss", cmp("eq", sym("label"), str("x")), nil, nil), num(1)))
+	bolt(0, cmp("eq", fn("anyOf", "groups.boss.boss.label"), str("x")))
 	_ = ast.NodeTypeString
 }
